@@ -418,6 +418,25 @@ class simplify_chained_calls(FuncADLNodeTransformer):
 
         return self.visit(function_call("First", [select]))
 
+    def _bind_lambda_call(self, call_node: ast.Call):
+        """Match the arguments of a call to a lambda with its parameters (by position, then by
+        keyword) the way python does. Returns the argument for each parameter, in order, or `None`
+        if they do not match one-to-one."""
+        a = call_node.func.args
+        if a.posonlyargs or a.kwonlyargs or a.vararg or a.kwarg or a.defaults:
+            return None
+        names = [p.arg for p in a.args]
+        if len(call_node.args) > len(names):
+            return None
+        given = dict(zip(names, call_node.args))
+        for k in call_node.keywords:
+            if k.arg is None or k.arg not in names or k.arg in given:
+                return None
+            given[k.arg] = k.value
+        if len(given) != len(names):
+            return None
+        return [given[n] for n in names]
+
     def visit_Call(self, call_node):
         """We are looking for cases where an argument is another function or expression.
         In that case, we want to try to get an evaluation of the argument, and replace it in the
@@ -426,7 +445,11 @@ class simplify_chained_calls(FuncADLNodeTransformer):
         Also, if this is a First() call, then move the call inside it.
         """
         if type(call_node.func) is ast.Lambda:
-            arg_asts = [self.visit(a) for a in call_node.args]
+            given = self._bind_lambda_call(call_node)
+            if given is None:
+                # Not a call we can evaluate here - leave it as it is.
+                return self.generic_visit(call_node)
+            arg_asts = [self.visit(a) for a in given]
             with stack_frame(self._arg_stack):
                 for a_name, arg in zip(call_node.func.args.args, arg_asts):
                     self._arg_stack.define_name(a_name.arg, arg)
